@@ -40,7 +40,13 @@ CLAIM = {
             'proved equal to / positive for the normal forms; the rest of the model is tied by exact comparison on '
             'integer tokens for every (fft<=12 quick / 32 thorough, cp, used) and by 1e-9 numeric comparison of '
             'modulate, demodulate, TdlChannel.corrupt_data, get_freq_response and equalize_data (static and '
-            'time-varying channels, memory below/at/beyond cp and fft, error branches).',
+            'time-varying channels, memory below/at/beyond cp and fft, error branches). The (OFDM object, '
+            'long-lived equaliser) pair is a state machine (set_parameters valid|invalid / modulate / demodulate / '
+            'equalize): after ANY history the object holds the last accepted valid triple and every operation equals '
+            'that of a freshly built pair (the equaliser keeps a reference, no derived copy), so round trip and '
+            'one-tap exactness hold after any history; tied by seeded + structured histories of 1-5 '
+            're-configurations on ONE OFDM object with ONE equaliser compared step by step with the model, and the '
+            'onetap_history oracle compares the long-lived pair with a fresh pair and with the transmitted symbols.',
     'note': 'Trusted: Lean kernel, std axioms, harness/gen/c02.py (numpy idioms arange / r_ / hstack / fftshift / '
             'slices / int(ceil(float(a)/b)) -> list functions; the float ceiling is read as exact), correspondence '
             'harness. np.fft is an oracle: its agreement with the textbook DFT is checked numerically on the cases '
@@ -202,6 +208,86 @@ def o_history(case):
     return None
 
 
+def relation(built, cur):
+    """how the configuration in force differs from the one the equaliser was built on (class suffix)"""
+    if built[0] != cur[0]:
+        return 'fft-grown' if cur[0] > built[0] else 'fft-shrunk'
+    if built[2] != cur[2]:
+        return 'used-changed'
+    if built[1] != cur[1]:
+        return 'cp-changed'
+    return 'unchanged'
+
+
+def o_onetap_history(case):
+    """ONE OFDM object and ONE long-lived equaliser built on it; the object is re-configured with
+    set_parameters (valid and invalid calls); after every call the full transmit - static channel -
+    demodulate - equalise round trip through the long-lived pair must (a) not raise, (b) equal what a
+    freshly built pair with the current configuration gives, (c) recover the symbols"""
+    o = _ofdm()
+    f, c, u = case['init']
+    obj = o.OFDM(f, c, u)
+    eqz = o.OfdmOneTapEqualizer(obj)
+    built = (f, c, u)
+    cur = built
+    for k, st in enumerate(case['steps']):
+        f, c, u = st['set']
+        uu = f if u is None else u
+        try:
+            obj.set_parameters(f, c, u)
+            raised = False
+        except ValueError:
+            raised = True
+        if valid(f, c, uu):
+            if raised:
+                return 'history-rejects-valid', 'step %d %r' % (k, (f, c, u))
+            cur = (f, c, uu)
+        elif not raised:
+            return 'history-accepts-invalid', 'step %d %r' % (k, (f, c, u))
+        if (obj.fft_size, obj.cp_size, obj.num_used_subcarriers) != cur:
+            return 'history-state', 'after step %d' % k
+        rel = relation(built, cur)
+        x = cx(st['x'])
+        try:
+            ch = make_static_channel(st['delays'], st['powers_dB'], cx(st['draw']))
+        except Exception:
+            continue                                   # profile defect: reported by `onetap`
+        memory = int(ch.num_taps_with_padding) - 1
+        if memory > cur[1] or memory >= cur[0]:
+            continue
+        fresh = o.OFDM(*cur)
+        fresh_eq = o.OfdmOneTapEqualizer(fresh)
+        try:
+            tx = obj.modulate(x.copy())
+            rx = ch.corrupt_data(np.array(tx, copy=True))
+            ir = ch.get_last_impulse_response()
+            dem = obj.demodulate(np.array(rx[:tx.size], copy=True))
+            out = eqz.equalize_data(np.array(dem, copy=True), ir)
+        except Exception as e:
+            return 'history-raises:' + rel, 'step %d, configuration %r: %s: %s' % (k, cur, type(e).__name__, str(e)[:150])
+        tx2 = fresh.modulate(x.copy())
+        dem2 = fresh.demodulate(np.array(rx[:tx.size], copy=True))
+        out2 = fresh_eq.equalize_data(np.array(dem2, copy=True), ir)
+        if tx.shape != tx2.shape or not np.array_equal(tx, tx2) or dem.shape != dem2.shape or not np.array_equal(dem, dem2):
+            return 'stale-ofdm:' + rel, 'step %d: modulate/demodulate of the re-configured object differ from a fresh OFDM%r' % (k, cur)
+        same = out.shape == out2.shape and np.allclose(out, out2, rtol=1e-12, atol=1e-12, equal_nan=True)
+        if not same:
+            return 'stale-equaliser:' + rel, ('step %d: the long-lived equaliser differs from a fresh one on OFDM%r '
+                                               '(built on OFDM%r)' % (k, cur, built))
+        dense = np.zeros(memory + 1, dtype=complex)
+        if tx.size:
+            dense[np.asarray(ir.tap_indexes_sparse, dtype=int)] = np.asarray(ir.tap_values_sparse)[:, 0]
+            Hs = np.array([sum(dense[d] * np.exp(-2j * np.pi * ((d * kk) % cur[0]) / cur[0]) for d in range(memory + 1))
+                           for kk in range(cur[0])])
+            if float(np.min(np.abs(Hs))) < 0.05:
+                continue
+        want = np.concatenate([x, np.zeros(expected_padding(x.size, cur[2]))])
+        scale = max(1.0, float(np.max(np.abs(x))) if x.size else 1.0)
+        if out.shape != want.shape or (want.size and not float(np.max(np.abs(out - want))) <= 2e-6 * scale):
+            return 'one-tap-inexact-after-history:' + rel, 'step %d configuration %r' % (k, cur)
+    return None
+
+
 def o_roundtrip(case):
     """demodulate(modulate(x)) = x followed only by zero padding, for a valid configuration"""
     o = _ofdm()
@@ -332,7 +418,7 @@ def o_onetap(case):
     return None
 
 
-ORACLES = {'history': o_history, 'constructor': o_constructor, 'roundtrip': o_roundtrip, 'structure': o_structure,
+ORACLES = {'onetap_history': o_onetap_history, 'history': o_history, 'constructor': o_constructor, 'roundtrip': o_roundtrip, 'structure': o_structure,
            'guards': o_guards, 'onetap': o_onetap}
 
 
@@ -401,6 +487,53 @@ def gen_profile(rng, max_memory, ntaps_max=6, force=False):
     powers = [round(-rng.uniform(0, 20), 3) for _ in delays]
     draw = [[rng.gauss(), rng.gauss()] for _ in delays]
     return delays, powers, draw
+
+
+STRUCTURED_HISTORIES = [
+    # (initial configuration, set_parameters calls)
+    ([64, 16, 52], [[128, 16, 52]]),                                   # fft grows, used count kept
+    ([128, 16, 52], [[64, 16, 52]]),                                   # fft shrinks
+    ([16, 4, 16], [[16, 4, 10], [16, 17, 10], [16, 8, 10]]),           # used == fft -> guards, rejected call, cp change
+    ([8, 2, 6], [[8, 2, 7], [32, 8, 32], [12, 0, 2], [8, 2, 6]]),      # rejected, grow to all-used, shrink, back
+    ([32, 32, 20], [[32, 0, 20], [9, 9, 8], [10, 5, None]]),           # cp only, odd fft, used=None
+]
+
+
+def gen_history(rng, k=None):
+    """1-5 re-configurations of one object: growing and shrinking fft, used < fft and used == fft,
+    cp changes, rejected calls in between"""
+    init = list(gen_config(rng, 48))
+    sets = []
+    for _ in range(k if k is not None else rng.randint(1, 5)):
+        r = rng.uniform()
+        if r < 0.2:
+            sets.append([rng.randint(0, 20), rng.randint(-1, 24), rng.choice([None, rng.randint(-1, 24)])])   # mostly invalid
+        elif r < 0.35 and sets:
+            f, c, u = (sets[-1] if valid(sets[-1][0], sets[-1][1], sets[-1][0] if sets[-1][2] is None else sets[-1][2]) else init)
+            sets.append([f, rng.randint(0, f), u])                                                             # cp only
+        elif r < 0.5:
+            f, c, u = init
+            f2 = rng.choice([2 * f, max(u, f // 2 + (f // 2) % 2), f + 2])
+            sets.append([f2, min(c, f2), u if u <= f2 else f2 - f2 % 2])                                       # fft only
+        else:
+            sets.append(list(gen_config(rng, 48)))
+    return init, sets
+
+
+def history_case(rng, init, sets):
+    """attach to every call the symbols and the static channel used after it (memory <= cp, < fft of the
+    configuration expected to be in force)"""
+    cur = tuple(init)
+    steps = []
+    for f, c, u in sets:
+        uu = f if u is None else u
+        if valid(f, c, uu):
+            cur = (f, c, uu)
+        delays, powers, draw = gen_profile(rng, min(cur[1], cur[0] - 1), force=rng.chance(0.3))
+        n = gen_length(rng, cur[2])
+        steps.append({'set': [f, c, u], 'x': gen_symbols(rng, n, integer=False),
+                      'delays': delays, 'powers_dB': powers, 'draw': draw})
+    return {'init': list(init), 'steps': steps}
 
 
 # ------------------------------------------------------------------ correspondence
@@ -703,6 +836,76 @@ def corr_channel(ctx, b, i, fmax):
             ctx.branch('freq:cropped')
 
 
+def corr_pair_history(ctx, b, case, tag):
+    """the same history on ONE real OFDM object + ONE long-lived equaliser and on the model's pair state
+    machine (`pair` command): every output and the final attributes are compared"""
+    o = _ofdm()
+    f, c, u = case['init']
+    obj = o.OFDM(f, c, u)
+    eqz = o.OfdmOneTapEqualizer(obj)
+    ops, checks = [], []
+
+    def num(name, arr, tol):
+        def chk(r, arr=arr, name=name, tol=tol):
+            if r.startswith('error'):
+                return ctx.corr(name, tag, 'ok', r, key=(name, tag, len(checks)))
+            m = parse_cx(r)
+            a = np.asarray(arr, dtype=complex).ravel()
+            good = np.isfinite(a) & (np.abs(a) < 1e6) if a.shape == m.shape else slice(None)
+            return ctx.corr(name, tag, 'match', near(a[good], m[good], tol) or 'match' if a.shape == m.shape
+                            else 'shape %s vs %s' % (a.shape, m.shape), key=(name, tag, id(arr)))
+        return chk
+    for st in case['steps']:
+        f, c, u = st['set']
+        try:
+            obj.set_parameters(f, c, u)
+            flag = 'ok'
+        except ValueError:
+            flag = 'error:ValueError'
+        ops.append('set:%d:%d:%s' % (f, c, 'none' if u is None else u))
+        checks.append(lambda r, flag=flag: ctx.corr('pair.set_parameters', tag, flag, r))
+        ctx.branch('pair:set:' + flag.split(':')[0])
+        try:
+            ch = make_static_channel(st['delays'], st['powers_dB'], cx(st['draw']))
+        except ValueError:
+            continue
+        x = cx(st['x'])
+        ps = float(obj._calculate_power_scale())
+        sf = core.f2s(math.sqrt(ps) if ps > 0 else float('nan'))
+        tx = obj.modulate(x.copy())
+        rx = ch.corrupt_data(np.array(tx, copy=True))
+        ir = ch.get_last_impulse_response()
+        dem = obj.demodulate(np.array(rx[:tx.size], copy=True))
+        d = ','.join(str(int(v)) for v in np.asarray(ir.tap_indexes_sparse))
+        vals = np.asarray(ir.tap_values_sparse, dtype=complex)
+        ops.append('mod:%s:%s' % (sf, fl(x)))
+        checks.append(num('pair.modulate', tx, TOL))
+        ops.append('demod:%s:%s' % (sf, fl(rx[:tx.size])))
+        checks.append(num('pair.demodulate', dem, TOL))
+        try:
+            out = eqz.equalize_data(np.array(dem, copy=True), ir)
+            ops.append('eq:%s:%d:%s:%s' % (d, vals.shape[1], fl(vals), fl(dem)))
+            checks.append(num('pair.equalize_data', out, 1e-7))
+        except Exception as e:
+            ops.append('eq:%s:%d:%s:%s' % (d, vals.shape[1], fl(vals), fl(dem)))
+            checks.append(lambda r, e=e: ctx.corr('pair.equalize_data', tag, 'raised ' + type(e).__name__,
+                                                  r if r.startswith('error') else 'ok'))
+        ctx.branch('pair:roundtrip')
+    final = '%d %d %d' % (obj.fft_size, obj.cp_size, obj.num_used_subcarriers)
+
+    def on_reply(r):
+        parts = r.split('|')
+        if len(parts) != len(checks) + 1:
+            ctx.corr('pair.history', tag, '%d outputs' % (len(checks) + 1), '%d outputs: %s' % (len(parts), r[:80]))
+            return
+        for chk, rep in zip(checks, parts):
+            chk(rep)
+        ctx.corr('pair.final-state', tag, final, parts[-1], key=('pair-final', tag))
+    fi, ci, ui = case['init']
+    b.add('pair %d %d %d %s' % (fi, ci, ui, ';'.join(ops)), on_reply)
+    ctx.branch('pair:history')
+
+
 def correspondence(ctx, small, nparams, nrand, fmax, nnum, nchan):
     b = Batch(ctx)
     guarded(ctx, 'set_parameters', 'seeded', corr_params, ctx, b, nparams)
@@ -730,6 +933,12 @@ def correspondence(ctx, small, nparams, nrand, fmax, nnum, nchan):
         guarded(ctx, 'numeric-layer', i, corr_numeric, ctx, b, i, 64)
     for i in range(nchan):
         guarded(ctx, 'channel-layer', i, corr_channel, ctx, b, i, 32)
+    # histories on one OFDM object with one long-lived equaliser
+    for i, (init, sets) in enumerate(STRUCTURED_HISTORIES):
+        guarded(ctx, 'pair-history', 's%d' % i, corr_pair_history, ctx, b, history_case(ctx.rng, init, sets), 's%d' % i)
+    for i in range(max(10, nchan // 2)):
+        init, sets = gen_history(ctx.rng)
+        guarded(ctx, 'pair-history', i, corr_pair_history, ctx, b, history_case(ctx.rng, init, sets), i)
     b.flush()
 
 
@@ -783,6 +992,12 @@ def oracles(ctx, small, nrand, fmax, nchan):
         run_oracle(ctx, 'onetap', case, key=('ot', i))
     # the known corner, always
     run_oracle(ctx, 'onetap', WITNESS_FULL_MEMORY, key='witness-full-memory')
+    # one OFDM object, one long-lived equaliser, 1-5 re-configurations
+    for i, (init, sets) in enumerate(STRUCTURED_HISTORIES):
+        run_oracle(ctx, 'onetap_history', history_case(rng, init, sets), key=('oth-s', i))
+    for i in range(max(30, nchan // 2)):
+        init, sets = gen_history(rng)
+        run_oracle(ctx, 'onetap_history', history_case(rng, init, sets), key=('oth', i))
 
 
 # OFDM(2, 2, 2), taps at delays 0 and 2: memory = cp = fft (the Lean witness `one_tap_fails_at_full_memory`)
@@ -803,7 +1018,8 @@ def check(ctx):
     ctx.required_branches = ['cfg:all-used', 'cfg:guards', 'cp:zero', 'cp:full', 'cp:partial', 'prep:pad', 'prep:nopad',
                              'rmcp:error', 'rmcp:ok', 'params:ok', 'params:error:ValueError', 'history',
                              'channel:static', 'channel:time-varying', 'channel:memory<=cp', 'channel:memory>cp',
-                             'freq:cropped', 'demod:error:ValueError', 'eq:empty:ok', 'eq:baddata:error']
+                             'freq:cropped', 'demod:error:ValueError', 'eq:empty:ok', 'eq:baddata:error',
+                             'pair:history', 'pair:roundtrip', 'pair:set:ok', 'pair:set:error']
     try:
         correspondence(ctx, small, 300 if quick else 3000, 150 if quick else 1500, 128 if quick else 512,
                        60 if quick else 600, 40 if quick else 500)
@@ -838,3 +1054,8 @@ def search(ctx):
         for cp in range(-1, fft + 2):
             for used in [None] + list(range(-2, fft + 3)):
                 run_oracle(ctx, 'constructor', {'fft': fft, 'cp': cp, 'used': used}, nontrivial=False)
+    for i, (init, sets) in enumerate(STRUCTURED_HISTORIES):
+        run_oracle(ctx, 'onetap_history', history_case(rng, init, sets))
+    for _ in range(300):
+        init, sets = gen_history(rng)
+        run_oracle(ctx, 'onetap_history', history_case(rng, init, sets))
